@@ -334,6 +334,100 @@ fn run_case(ctx: &Ctx, c: &Case) {
     ctx.count(kind, 1);
 }
 
+/// The guards must not depend on the selected device: every device of the table x every form the
+/// device has x each numeric operand just outside / just inside its field and far outside it.
+fn device_sweep(ctx: &Ctx) {
+    use crate::refmodel::devices;
+    use crate::refmodel::isa::Core;
+    let table = devices::table();
+    let forms = isa::forms();
+    let work: Vec<usize> = (0..table.len()).collect();
+    fw::par_items(&work, |_, di| {
+        let (name, dev) = &table[*di];
+        let reduced = devices::is_reduced(dev);
+        for form in forms.iter() {
+            if (form.core == Core::Reduced && !reduced) || (form.core == Core::Full && reduced) {
+                continue;
+            }
+            if devices::forbidding_flag(dev, &form.name).is_some() {
+                continue;
+            }
+            let anchor = form.tuple_at(0);
+            for (i, op) in form.ops.iter().enumerate() {
+                let (lo, hi) = match *op {
+                    Opk::Imm { lo, hi, .. } => (lo, hi),
+                    Opk::ImmCom { .. } => (0, 255),
+                    Opk::Disp { .. } => (0, 63),
+                    Opk::Addr8l { .. } => (0x40, 0xbf),
+                    Opk::Rel { bits, .. } => (-(1i64 << (bits - 1)), (1i64 << (bits - 1)) - 1),
+                    Opk::Reg { lo, hi, .. } => (lo as i64, hi as i64),
+                    Opk::Index(_) => continue,
+                };
+                let eight = matches!(*op, Opk::ImmCom { .. }) || matches!(*op, Opk::Imm { lo: 0, hi: 255, .. });
+                let mut probes = vec![lo - 1, lo, hi, hi + 1];
+                if !matches!(*op, Opk::Reg { .. }) {
+                    for far in [4096i64, 4095, 8192, 65536, 65535, 100_000, 1 << 22, 1 << 32] {
+                        probes.push(hi + far);
+                        probes.push(lo - far);
+                        probes.push(far + lo);
+                    }
+                }
+                for v in probes {
+                    if matches!(*op, Opk::Reg { .. }) && !(0..32).contains(&v) {
+                        continue;
+                    }
+                    let mut vals = anchor.clone();
+                    vals[i] = v;
+                    let mut ops: Vec<String> = anchor.iter().enumerate().map(|(k, x)| op_text(form, k, *x)).collect();
+                    ops[i] = match *op {
+                        Opk::Reg { .. } => format!("r{}", v),
+                        Opk::Rel { .. } => op_text(form, i, v),
+                        Opk::Disp { reg, .. } => {
+                            if v < 0 {
+                                format!("{}+({})", reg, v)
+                            } else {
+                                format!("{}+{}", reg, v)
+                            }
+                        }
+                        _ => num_text(v as i128),
+                    };
+                    let text = assemble(form, &ops);
+                    let src = format!(".device {}\n{}\n", name, text);
+                    let out = fw::build_str(&src);
+                    ctx.eval(1);
+                    ctx.count("device_sweep_builds", 1);
+                    let legal = form.legal(&vals);
+                    let either = eight && (-128..0).contains(&v);
+                    let bad = match &out {
+                        Outcome::Panic(_) => Some("panic"),
+                        Outcome::Ok(b) => {
+                            if legal {
+                                if b.code == isa::words_to_bytes(&isa::encode(form, &vals)) { None } else { Some("misencoded") }
+                            } else if either {
+                                let mut v2 = vals.clone();
+                                v2[i] = v & 0xff;
+                                if b.code == isa::words_to_bytes(&isa::encode(form, &v2)) { None } else { Some("misencoded") }
+                            } else {
+                                Some("accepted")
+                            }
+                        }
+                        Outcome::Err(_) => {
+                            if legal { Some("rejected-legal") } else { None }
+                        }
+                    };
+                    if let Some(aspect) = bad {
+                        ctx.violation(
+                            format!("guard/{}/op{}/on-device/{}", form.name, i, aspect),
+                            format!("`{}` on {}: {} ({:?})", text, name, aspect, fw::clip(&format!("{:?}", out.brief()), 120)),
+                            json!({"source": src, "form": form.name, "device_sweep": true, "device": name, "legal": legal, "either": either, "vals": vals, "sig": format!("guard/{}/op{}/on-device/{}", form.name, i, aspect)}),
+                        );
+                    }
+                }
+            }
+        }
+    });
+}
+
 pub fn run(ctx: &Ctx) -> i32 {
     if let Err(e) = isa::selfcheck() {
         println!("HARNESS-FAILURE property=C04 {}", e);
@@ -359,10 +453,11 @@ pub fn run(ctx: &Ctx) -> i32 {
         ctx.sample(json!({"line": c.text, "expect": match &c.expect { Expect::Accept(w) => format!("accept -> {:04x?}", w), Expect::Either(w) => format!("either Err or {:04x?}", w), Expect::Reject => "must be rejected".to_string() }, "class": c.sig}));
     }
     fw::par_for(cases.len() as u64, 256, |i| run_case(ctx, &cases[i as usize]));
+    device_sweep(ctx);
     ctx.exhaustive.store(true, std::sync::atomic::Ordering::Relaxed);
     fw::finish(
         ctx,
-        "per instruction form and legal anchor tuple, one operand at a time leaves its ISA domain: every register r0..r31 in each register position, every number in [lo-300, hi+300] plus ±2^k, ±2^k±1, ±i64::MAX and i64::MIN in each numeric position, operand-kind substitutions, 0..arity-1 and arity+1 operands, and for every two-operand form the complete cross product every register x every register / boundary value (thorough: two operands out at once, ±70000 windows on 16/22-bit fields); exhaustive for those windows; distinct_nontrivial = distinct must-reject source lines",
+        "per instruction form and legal anchor tuple, one operand at a time leaves its ISA domain: every register r0..r31 in each register position, every number in [lo-300, hi+300] plus ±2^k, ±2^k±1, ±i64::MAX and i64::MIN in each numeric position, operand-kind substitutions, 0..arity-1 and arity+1 operands, and for every two-operand form the complete cross product every register x every register / boundary value (thorough: two operands out at once, ±70000 windows on 16/22-bit fields); plus a device sweep: every device of the table x every form it has x each operand just outside, just inside and far outside (by 4095..2^32) its field; exhaustive for those windows; distinct_nontrivial = distinct must-reject source lines",
         &[
             "legality = refmodel/isa.rs operand domains (manual transcription)",
             "8-bit immediates written as -128..-1 are accepted as two's complement or rejected (statement silent); ld/ldd and st/std cross-spellings are not probed except X+q, which no instruction encodes",
@@ -371,6 +466,25 @@ pub fn run(ctx: &Ctx) -> i32 {
 }
 
 pub fn replay(ctx: &Ctx, case: &Value) -> i32 {
+    if case["device_sweep"].as_bool() == Some(true) {
+        let out = fw::build_str(case["source"].as_str().unwrap_or(""));
+        ctx.eval(1);
+        ctx.distinct(1);
+        ctx.distinct(2);
+        let legal = case["legal"].as_bool().unwrap_or(false);
+        let either = case["either"].as_bool().unwrap_or(false);
+        let form = isa::form(case["form"].as_str().unwrap_or("nop"));
+        let vals: Vec<i64> = case["vals"].as_array().map(|a| a.iter().filter_map(|x| x.as_i64()).collect()).unwrap_or_default();
+        let bad = match &out {
+            Outcome::Panic(_) => true,
+            Outcome::Ok(b) => !(legal && b.code == isa::words_to_bytes(&isa::encode(form, &vals))) && !either,
+            Outcome::Err(_) => legal,
+        };
+        if bad {
+            ctx.violation(case["sig"].as_str().unwrap_or("guard/replay").to_string(), "replayed device-sweep case still deviates", case.clone());
+        }
+        return fw::finish(ctx, "replay", &[]);
+    }
     let src = case["source"].as_str().unwrap_or("");
     let form_name = case["form"].as_str().unwrap_or("");
     let fi = isa::form_index(form_name);
